@@ -788,7 +788,12 @@ def layout_lines(rng, lines):
         if rng.random() < 0.12:
             out.append(rng.choice(["\n", "   \n", "\t\n", "; full line comment\n", "  ; indented comment X\n", ";\n"]))
         if mn.upper() == "FCC":
-            out.append("%s%s%s%s%s\n" % (label, ws(rng), case_variant(rng, mn), ws(rng), op))
+            # the string ends at the FIRST closing delimiter: a comment after it may contain that character again
+            d = op[:1]
+            tail = ""
+            if rng.random() < 0.5 and len(op) >= 2 and op.endswith(d):
+                tail = ws(rng) + rng.choice(COMMENTS + ["; say %sHI%s" % (d, d), d, "; it%ss" % d, "%s %s" % (d, d), ";%s" % d])
+            out.append("%s%s%s%s%s%s\n" % (label, ws(rng), case_variant(rng, mn), ws(rng), op, tail))
             continue
         s = label + ws(rng) + case_variant(rng, mn)
         r = rng.random()
